@@ -36,6 +36,7 @@ func (c04) Classes() []sim.Class {
 			// several instances of ONE compiled module around one imported table: every call form that crosses
 			// from one instance into a sibling (twins.go)
 			sim.Class{Name: "twins", Engine: e, Quick: 600, Thorough: 30000, DeathIsViolation: true, RunTimeoutSec: 60},
+			sim.Class{Name: "type-identity", Engine: e, Quick: 300, Thorough: 15000, DeathIsViolation: true, RunTimeoutSec: 60},
 		)
 	}
 	return cs
@@ -501,6 +502,9 @@ func (r *runner) compatible(s *spec) (bool, string) {
 func (c04) Run(t *tape.Tape, cfg sim.Config) (res sim.Result) {
 	if cfg.Class == "twins" {
 		return runTwins(t, cfg)
+	}
+	if cfg.Class == "type-identity" {
+		return runTypeIdentity(t, cfg)
 	}
 	ctx := context.Background()
 	r := &runner{t: t, res: &res, ctx: ctx, lastWriter: map[any]int{}}
